@@ -389,15 +389,19 @@ def c01f(ctx):
     # the fingerprint compared is the callee's *current* node info, read after the recursive repair
     rep = b.calls_to(r"executor::Entry::<C>::repair_query_from_query_id$")
     info = b.calls_to(r"::get_node_info_unchecked$")
-    if len(rep) != 1 or len(info) != 1:
+    if len(rep) != 1 or not info:
         ctx.fail(o, Site(b, 0, 0), "anchors missing in check_callee (repair=%d, node-info read=%d)" % (len(rep), len(info)))
     else:
         aw = df.await_of_call(b, rep[0])
-        # info read is after the repair on every path that repairs
-        if aw is None or info[0].bb not in b.reachable([aw.ready_edge[1]]):
-            ctx.fail(o, info[0], "the callee's node info is not read after its recursive repair")
-        if b.site_dominates(info[0], rep[0]):
-            ctx.fail(o, info[0], "the callee's node info is read before the callee is repaired")
+        for i_ in info:
+            # every read of the callee's node info happens after the repair on every path that repairs: a decision taken on
+            # what is stored BEFORE the repair compares the observation with a possibly stale value (the value may have
+            # moved away and back: the caller would be re-executed, or kept, for the wrong reason)
+            if aw is None or i_.bb not in b.reachable([aw.ready_edge[1]]):
+                ctx.fail(o, i_, "check_callee reads the callee's node info without having repaired the callee first: the fingerprint it compares may be stale")
+            if b.site_dominates(i_, rep[0]):
+                ctx.fail(o, i_, "check_callee reads the callee's node info BEFORE the callee is repaired: a decision (Recompute / Cleaned) taken on it compares the caller's "
+                         "observation with a value that the repair may still change back")
     # recompute_decision: a Recompute from any callee stops with Recompute
     o = ctx.ob("C01.f", "recompute_decision/recompute-propagates", "K4", "one differing callee is enough to recompute")
     b = ctx.touch(prog.coroutine_of("Snapshot::recompute_decision_based_on_forward_edges"))
